@@ -294,22 +294,33 @@ def diffRaw (v : Variant) (cmp : Nat → Bytes → Bytes → Bool) (buf1 buf2 : 
     | _, _ => none
 
 /-! ### index builder (simulationarchive.c:108-348) -/
-/-- first pass (lines 135-205): value of `sa->version` when the loop ends -/
-def scanVersion : Nat → Bytes → Nat → Nat
-  | 0, _, ver => ver
+def AUTO_INTERVAL : Nat := 47
+def AUTO_WALLTIME : Nat := 102
+def AUTO_STEP : Nat := 135
+
+/-- first pass (lines 135-205): value of `sa->version` when the loop ends; `none` = a
+    `fread(&member, field.size, 1, f)` with `field.size` larger than the member (lines 193-201:
+    the size in the file is trusted — F19): memory next to the member is overwritten -/
+def scanVersion : Nat → Bytes → Nat → Option Nat
+  | 0, _, ver => some ver
   | fuel + 1, r, ver =>
     match readHdr r with
-    | none => ver
+    | none => some ver
     | some (ty, sz, p) =>
       if ty = HEADER then scanVersion fuel (p.drop 48) ver
-      else if ty = END then ver
-      else if ty = SAVERSION then scanVersion fuel (p.drop sz) (de ((p.take sz).take 4))
+      else if ty = END then some ver
+      else if ty = SAVERSION then
+        if sz > 4 then none else scanVersion fuel (p.drop sz) (de (p.take sz))
+      else if ty = T_ID ∨ ty = AUTO_INTERVAL ∨ ty = AUTO_WALLTIME ∨ ty = AUTO_STEP then
+        if sz > 8 then none else scanVersion fuel (p.drop sz) ver
       else scanVersion fuel (p.drop sz) ver
 
 inductive BlobWalk where
   /-- END reached: time field seen (if any), absolute position and stream after the END header -/
   | ok (t : Option Bytes) (pos : Nat) (rest : Bytes)
   | readError
+  /-- `fread(&(sa->t[i]), field.size, 1, f)` with `field.size > 8` (line 244, F19): writes past the slot -/
+  | overflow
 deriving Repr
 
 /-- inner do-while (lines 234-262) -/
@@ -321,14 +332,15 @@ def walkBlob : Nat → Nat → Bytes → Option Bytes → BlobWalk
     | some (ty, sz, p) =>
       if ty = HEADER then walkBlob fuel (pos + 64) (p.drop 48) t
       else if ty = T_ID then
-        if sz = 0 ∨ shorter p sz then .readError
+        if sz > 8 then .overflow
+        else if sz = 0 ∨ shorter p sz then .readError
         else walkBlob fuel (pos + 16 + sz) (p.drop sz) (some (p.take sz))
       else if ty = END then .ok t (pos + 16) p
       else walkBlob fuel (pos + 16 + sz) (p.drop sz) t
 
 structure Entry where
   off : Nat
-  /-- the 8 bytes of `sa->t[i]`; `none` = never written (calloc'd / uninitialised: F11) -/
+  /-- the bytes read into `sa->t[i]`; `none` = never written (calloc'd / uninitialised: F11) -/
   t : Option Bytes
 deriving DecidableEq, Repr
 
@@ -337,25 +349,28 @@ structure IndexOut where
   readError : Bool
   /-- REB_SIMULATION_BINARY_WARNING_CORRUPTFILE raised inside the loop (trailer short) -/
   shortTrailer : Bool
+  /-- out-of-bounds write happened (F19) -/
+  undefinedB : Bool := false
 deriving Repr
 
 /-- outer for-loop (lines 230-316); `i` = blob number, `pos`/`r` = stream position -/
 def indexLoop : Nat → Nat → Nat → Bytes → IndexOut
-  | 0, _, _, _ => ⟨[], true, false⟩
+  | 0, _, _, _ => ⟨[], true, false, false⟩
   | fuel + 1, i, pos, r =>
     match walkBlob (r.length + 1) pos r none with
-    | .readError => ⟨[], true, false⟩
+    | .readError => ⟨[], true, false, false⟩
+    | .overflow => ⟨[], true, false, true⟩
     | .ok t pos1 r1 =>
       let tb := r1.take 12
       let short := tb.length < 12
       let pos2 := pos1 + tb.length
       let offPrev := de ((tb.drop 4).take 4)
       let offNext := de ((tb.drop 8).take 4)
-      if i > 0 ∧ sgn32 offPrev + 12 ≠ (pos2 : Int) - (pos : Int) then ⟨[], true, short⟩
-      else if offNext = 0 ∨ short then ⟨[⟨pos, t⟩], false, short⟩
+      if i > 0 ∧ sgn32 offPrev + 12 ≠ (pos2 : Int) - (pos : Int) then ⟨[], true, short, false⟩
+      else if offNext = 0 ∨ short then ⟨[⟨pos, t⟩], false, short, false⟩
       else
         let o := indexLoop fuel (i + 1) pos2 (r1.drop 12)
-        ⟨⟨pos, t⟩ :: o.entries, o.readError, o.shortTrailer⟩
+        ⟨⟨pos, t⟩ :: o.entries, o.readError, o.shortTrailer, o.undefinedB⟩
 
 inductive OpenResult where
   /-- archive opened: entries, and whether the corrupt-file warning is raised -/
@@ -365,6 +380,8 @@ inductive OpenResult where
   /-- REB_SIMULATION_BINARY_ERROR_SEEK: no complete snapshot.  `freesCaller` = the callee
       called `free` on the handle it was given (F2) -/
   | errorSeek (freesCaller : Bool)
+  /-- the reader wrote outside an object (F19): anything may happen -/
+  | undefined
 deriving Repr
 
 /-- F11 repair: a blob without a time field gets the time of blob 0 -/
@@ -377,13 +394,17 @@ def fixTimes (v : Variant) (es : List Entry) : List Entry :=
 
 /-- `reb_read_simulationarchive_from_stream_with_messages` (sa_index = NULL) -/
 def openArchive (v : Variant) (file : Bytes) : OpenResult :=
-  if scanVersion (file.length + 1) file 0 < 2 then .errorOld
-  else
-    let o := indexLoop (file.length + 1) 0 0 file
-    if o.readError then
-      if o.entries.length > 0 then .ok (fixTimes v o.entries) true
-      else .errorSeek (!v.f2)
-    else .ok (fixTimes v o.entries) o.shortTrailer
+  match scanVersion (file.length + 1) file 0 with
+  | none => .undefined
+  | some ver =>
+    if ver < 2 then .errorOld
+    else
+      let o := indexLoop (file.length + 1) 0 0 file
+      if o.undefinedB then .undefined
+      else if o.readError then
+        if o.entries.length > 0 then .ok (fixTimes v o.entries) true
+        else .errorSeek (!v.f2)
+      else .ok (fixTimes v o.entries) o.shortTrailer
 
 def OpenResult.entries : OpenResult → List Entry
   | .ok es _ => es
